@@ -19,7 +19,7 @@ class Contract:
     def __init__(self, key, module=None, qualname=None, params=None, returns=None, requires=(), ensures=(),
                  raises=(), locals=None, loops=None, defn=None, modifies=(), kind="function",
                  status="verify", impl_of=None, self_guard=None, defaults=None, ensures_on_raise=(),
-                 attrs=None, is_lemma=False, note="", total=None, properties=(), inline=False):
+                 attrs=None, is_lemma=False, note="", total=None, properties=(), inline=False, use_at_end=(), opaque=()):
         self.key = key
         self.module = module
         self.qualname = qualname or key
@@ -44,6 +44,8 @@ class Contract:
         self.total = total if total is not None else (not self.requires and not self.raises)
         self.properties = list(properties)    # property ids this function is under contract for
         self.inline = inline
+        self.use_at_end = list(use_at_end)
+        self.opaque = set(opaque)
 
     def param_axioms(self, eng, st):
         return []
@@ -64,6 +66,8 @@ class Registry:
                           "NotImplementedError": ["Exception"], "Exception": []}
         self._spec_cache = {}
         self.render_fn = None
+        self.lemmas = {}
+        self.defined = {}         # name -> dict(params, body, func, axiom, deps): defined predicates (opaque-able)
 
     # ------------------------------------------------------------------ registration
     def add(self, c: Contract):
@@ -71,6 +75,54 @@ class Registry:
             raise ValueError(f"duplicate contract {c.key}")
         self.contracts[c.key] = c
         return c
+
+    def lemma(self, key, params, requires, ensures, properties=(), note=""):
+        """Register a lemma; it becomes usable in 'use' clauses (as the formula requires => ensures)."""
+        c = Contract(key, params=params, requires=requires, ensures=ensures, is_lemma=True, properties=properties, note=note)
+        self.add(c)
+        self.lemmas[key] = c
+        return c
+
+    def define(self, name, params, body):
+        """A defined predicate: an uninterpreted symbol plus one definitional axiom (with the application as its
+        trigger). Uses stay syntactically aligned across contracts and the definition can be hidden (opaque)."""
+        self.defined[name] = dict(params={k: parse_type(v) for k, v in params.items()}, body=body, func=None,
+                                  axiom=None, deps=set())
+
+    def flatten(self, v):
+        k = v.t[0]
+        if k == "tuple":
+            return [t for e in v.x for t in self.flatten(e)]
+        if k == "dict":
+            return list(v.x)
+        if k == "opt":
+            return [v.x[0]] + self.flatten(v.x[1])
+        if k in ("obj", "list", "closure", "none"):
+            raise ContractDrift(f"defined predicate argument of type {v.t}")
+        return [v.x]
+
+    def defined_app(self, eng, name, args, st):
+        """Transparent (default): expand the body like a macro. Opaque (listed in the contract's 'opaque'): an
+        application of an uninterpreted symbol -- whatever is proved then holds for every interpretation of it,
+        in particular for the defined one, and hypotheses stated with it stay syntactically aligned."""
+        d = self.defined[name]
+        if len(args) != len(d["params"]):
+            raise ContractDrift(f"defined predicate {name}: arity")
+        if not (eng.c is not None and name in eng.c.opaque):
+            saved = dict(eng.bound)
+            eng.bound.update(dict(zip(d["params"].keys(), [eng.typed(a, t) for a, t in zip(args, d["params"].values())])))
+            try:
+                return eng.ev1(self.parse_spec(d["body"]), st)
+            finally:
+                eng.bound = saved
+        vs = [eng.typed(a, t) for a, t in zip(args, d["params"].values())]
+        terms = [t for v in vs for t in self.flatten(v)]
+        if d["func"] is None:
+            d["func"] = z3.Function(name, *[t.sort() for t in terms], z3.BoolSort())
+        return vbool(d["func"](*terms))
+
+    def def_axioms(self, names, opaque=()):
+        return []
 
     def specfun(self, name, schema=False):
         def deco(f):
@@ -122,7 +174,7 @@ class Registry:
             n = f.id
             if n in ("len", "isinstance", "set", "list", "tuple", "sorted", "any", "all", "map", "bool", "str"):
                 return True
-            if n in self.specfuns or n in self.macros:
+            if n in self.specfuns or n in self.macros or n in self.defined:
                 return True
             if n in self.ctors:
                 return True
@@ -146,6 +198,13 @@ class Registry:
                 return [(st, self.quantifier(eng, n, node, st))]
             if n == "old" and eng.spec:
                 return [(st, self.old(eng, node, st))]
+            if n == "new" and eng.spec:
+                cls = node.args[0].id
+                layout = OBJ_LAYOUT[cls]
+                fields = {k.arg: eng.typed(eng.ev1(k.value, st), layout[k.arg]) for k in node.keywords}
+                if set(fields) != set(layout):
+                    raise ContractDrift(f"new({cls}): fields {sorted(fields)} != layout {sorted(layout)}")
+                return [(st, V(("obj", cls), fields))]
             if n == "pre" and eng.spec:
                 return [(st, self.pre(eng, node, st))]
             if n == "setof" and eng.spec:
@@ -236,6 +295,8 @@ class Registry:
             return self.call_method(eng, st, recv, attr, args, kwargs, node, recv_expr=rexpr)
         if n in eng.bound and eng.bound[n].t[0] == "closure":
             return eng.apply_closure(eng.bound[n], args, st)
+        if eng.spec and n in self.defined:
+            return [(st, self.defined_app(eng, n, args, st))]
         if eng.spec and n in self.macros:
             return [(st, self.expand_macro(eng, n, args, st))]
         if n in self.specfuns and (eng.spec or n in self.code_visible_specfuns):
@@ -302,11 +363,15 @@ class Registry:
         if len(names) != len(type_nodes):
             raise ContractDrift("quantifier arity")
         vs, consts = [], []
-        for nm, tn in zip(names, type_nodes):
-            t = parse_type(ast.unparse(tn))
-            v = fresh(t, nm)
-            vs.append(v)
-            consts += self.consts_of(v)
+        eng.qdepth = getattr(eng, "qdepth", 0) + 1
+        try:
+            for nm, tn in zip(names, type_nodes):
+                t = parse_type(ast.unparse(tn))
+                v = eng.bvar(nm, t)
+                vs.append(v)
+                consts += self.consts_of(v)
+        finally:
+            eng.qdepth -= 1
         return names, vs, consts
 
     def consts_of(self, v):
@@ -430,10 +495,23 @@ class Registry:
         npc = len(st.pc)
         try:
             for gi, g in enumerate(gens):
+                if (isinstance(g.iter, ast.Call) and isinstance(g.iter.func, ast.Attribute) and g.iter.func.attr == "items"
+                        and not g.iter.args):
+                    dv = eng.ev1(g.iter.func.value, st)
+                    if dv.t[0] == "dict":
+                        # iterate keys only: the value is a function of the key (no quantification over values)
+                        kx = eng.bvar(f"c{gi}!k", dv.t[1])
+                        consts += self.consts_of(kx)
+                        member.append(z3.Select(dv.x[0], to_term(kx)))
+                        val = from_term(dv.t[2], z3.Select(dv.x[1], to_term(kx)))
+                        self.bind_target(eng, g.target, V(("tuple", (dv.t[1], dv.t[2])), (kx, val)))
+                        for c in g.ifs:
+                            member.append(eng.truth(eng.ev1(c, st)))
+                        continue
                 coll = first if gi == 0 else eng.ev1(g.iter, st)
                 coll = self.as_membership(eng, coll)
                 et = coll.t[1]
-                x = fresh(et, "x")
+                x = eng.bvar(f"c{gi}!" + (g.target.id if isinstance(g.target, ast.Name) else "t"), et)
                 consts += self.consts_of(x)
                 member.append(z3.Select(coll.x, to_term(x)))
                 self.bind_target(eng, g.target, x)
@@ -618,7 +696,7 @@ class Registry:
             # exceptional outcomes: raised iff condition
             conds = []
             for exc, cond in c.raises:
-                (e_, t), = eng.spec_conj([cond], cs)
+                t = zand(*[t_ for _, t_ in eng.spec_conj([cond], cs)])
                 conds.append(t)
                 if eng.spec:
                     continue
